@@ -1,7 +1,7 @@
 (* Single entry point val -> val for every modelled function; used by the extracted
    runner and by the generated in-Coq case files. *)
 From Coq Require Import ZArith List Bool.
-From Gabi Require Import Val ModArith Bytes Der Sha256 HashTool GoSem ParamsDef ZkProof Keys RangeProof NonRev Core CL Prover.
+From Gabi Require Import Val ModArith Bytes Der Sha256 HashTool GoSem ParamsDef ZkProof Keys RangeProof NonRev Core CL Prover RangeSound.
 Import ListNotations.
 Open Scope Z_scope.
 
@@ -208,6 +208,62 @@ Definition d_construct_credential (v : val) : val := ret (
   | _ => None
   end).
 
+Definition d_proves_statement (v : val) : val := ret (
+  match v with
+  | VL [p; sg; f; b] => do p <- as_rproof p; do sg <- as_Z sg; do f <- as_Z f; do b <- as_Z b;
+                        Some (of_bool (proves_statement p sg f b))
+  | _ => None
+  end).
+
+Definition d_proven_statement (v : val) : val := ret (
+  do p <- as_rproof v;
+  Some (match proven_statement p with
+        | Some (sg, f, b) => VL [VZ sg; VZ f; VZ b]
+        | None => VN
+        end)).
+
+Definition d_range_verify (v : val) : val := ret (
+  match v with
+  | VL [pk; idx; p; c] =>
+    do pk <- as_pk pk; do idx <- as_Z idx; do p <- as_rproof p; do c <- as_Z c;
+    Some (of_outcome of_LZ
+      (let! s := extract_structure (pk_params pk) idx p in
+       if negb (verify_proof_structure pk s p) then Err
+       else commitments_from_proof pk s p c))
+  | _ => None
+  end).
+
+Definition d_range_prove (v : val) : val := ret (
+  match v with
+  | VL [pk; idx; sg; f; b; nsq; ld; m; mr; ds; drs; vs; vrs; v5r; c] =>
+    do pk <- as_pk pk; do idx <- as_Z idx; do sg <- as_Z sg; do f <- as_Z f; do b <- as_Z b;
+    do nsq <- as_Z nsq; do ld <- as_Z ld; do m <- as_Z m; do mr <- as_Z mr;
+    do ds <- as_LZ ds; do drs <- as_LZ drs; do vs <- as_LZ vs; do vrs <- as_LZ vrs; do v5r <- as_Z v5r; do c <- as_Z c;
+    Some (of_outcome (fun x => x)
+      (let! s := new_proof_structure idx sg f b nsq ld in
+       let! (contribs, cm) := commitments_from_secrets pk s m mr ds drs vs vrs v5r in
+       Ok (VL [of_LZ contribs; of_rproof (build_proof s cm c); of_rstruct s])))
+  | _ => None
+  end).
+
+(* decision whether the prover accepts the statement, and the value it would split *)
+Definition d_range_delta (v : val) : val := ret (
+  match v with
+  | VL [idx; sg; f; b; nsq; ld; m] =>
+    do idx <- as_Z idx; do sg <- as_Z sg; do f <- as_Z f; do b <- as_Z b; do nsq <- as_Z nsq; do ld <- as_Z ld; do m <- as_Z m;
+    Some (of_outcome VZ (let! s := new_proof_structure idx sg f b nsq ld in
+                         if delta s m <? 0 then Err else Ok (delta s m)))
+  | _ => None
+  end).
+
+Definition d_table_split (v : val) : val := ret (
+  match v with
+  | VL [lim; d] => do lim <- as_Z lim; do d <- as_Z d; Some (of_outcome of_LZ (table_split lim d))
+  | _ => None
+  end).
+
+Definition d_table_ld (v : val) : val := ret (do lim <- as_Z v; Some (VZ (table_ld lim))).
+
 Definition dispatch (fn : Z) (v : val) : val :=
   match fn with
   | 1501 => d_hash_commit v
@@ -228,6 +284,13 @@ Definition dispatch (fn : Z) (v : val) : val :=
   | 602 => d_sign_commitment v
   | 603 => d_prove_signature v
   | 604 => d_construct_credential v
+  | 1201 => d_proves_statement v
+  | 1202 => d_proven_statement v
+  | 1204 => d_range_verify v
+  | 1301 => d_range_prove v
+  | 1302 => d_range_delta v
+  | 1303 => d_table_split v
+  | 1304 => d_table_ld v
   | 501 => d_cl_verify v
   | 502 => d_cl_sign v
   | 503 => d_cl_randomize v
